@@ -60,6 +60,22 @@ func lenForm(v ssa.Value, depth int) linform {
 	case *ssa.ChangeType:
 		return lenForm(x.X, depth+1)
 	case *ssa.Call:
+		// a new helper that returns the slice: the length of what it returns
+		if h := directCallee(x); h != nil && newHelpers[h] && h.Blocks != nil && h.Signature.Results().Len() == 1 {
+			var f linform
+			n := 0
+			for _, r := range returnsOf(h) {
+				g := lenForm(unspill(r, r.Results[0]), depth+1)
+				if n > 0 && !f.equal(g) {
+					return linform{atoms: map[string]int{fmt.Sprintf("len(%s)", valueID(v)): 1}, ok: true}
+				}
+				f = g
+				n++
+			}
+			if n > 0 {
+				return f
+			}
+		}
 		if callee(x) == "builtin:append" && len(x.Call.Args) == 2 {
 			// append(s, one element) : the variadic part is a slice of a 1-element array
 			if sl, ok := x.Call.Args[1].(*ssa.Slice); ok {
@@ -69,6 +85,12 @@ func lenForm(v ssa.Value, depth int) linform {
 					}
 				}
 			}
+		}
+	case *ssa.UnOp:
+		// a local slice variable kept in memory (its address is taken somewhere): the value of the
+		// one store that reaches this load
+		if st := reachingStore(x); st != nil {
+			return lenForm(st.Val, depth+1)
 		}
 	case *ssa.Phi:
 		// all edges must agree
@@ -337,7 +359,15 @@ func c13Goodbye(c *Ctx) {
 	// start is taken before the filename is encoded
 	startOK := false
 	start := stripConv(item.fields["Offset"])
-	for _, l := range []ssa.Value{start} {
+	starts := []ssa.Value{start}
+	if p, isParam := start.(*ssa.Parameter); isParam {
+		// the item is built in a helper: the start offset is what its callers pass
+		starts = nil
+		for _, a := range boundArgs(p) {
+			starts = append(starts, stripConv(a))
+		}
+	}
+	for _, l := range starts {
 		if ld, ok := l.(*ssa.UnOp); ok && isCounterLoad(ld) {
 			for _, e := range encodeSites(fn) {
 				if typeName(e.typ) == "desync.FormatFilename" && instrDominates(ld, e.at) {
@@ -615,6 +645,9 @@ func encodeSites(fn *ssa.Function) []encodeSite {
 								out = append(out, encodeSite{call, t})
 							}
 						}
+					} else if ic, ok := inner.(*ssa.Call); ok {
+						// the helper builds the element itself
+						out = append(out, encodeSite{ic, encodedType(ic)})
 					}
 				}
 			}
@@ -697,6 +730,13 @@ func c13ByteCounter(c *Ctx) {
 				}
 			}
 			n++
+			// an element encoded in a wrapper stands for every use of the wrapper
+			if g := b.Parent(); g != fn && newHelpers[g] && len(helperSites[g]) > 1 {
+				for _, cs := range helperSites[g][1:] {
+					n++
+					c.ok("tar:count-via-"+g.Name(), cs.Pos(), "element encoded through the counting wrapper %s", g.Name())
+				}
+			}
 			key := fmt.Sprintf("tar:count-after-%s", strings.TrimPrefix(typeName(encodedType(call)), "desync."))
 			if callee(call) == "desync.tar" {
 				key = "tar:count-after-child"
@@ -870,4 +910,78 @@ func counterCellOf(addr ssa.Value) *ssa.Alloc {
 func isCounterCell(al *ssa.Alloc) bool {
 	fn := al.Parent()
 	return fn != nil && fn.Signature.Results().Len() > 0 && al.Comment != "" && al.Comment == fn.Signature.Results().At(0).Name()
+}
+
+// reachingStore: for a load of a local cell, the store in the same function that dominates the
+// load when no other write to the cell (a store, or a call that is handed the cell's address) can
+// happen between the two; nil if there is no such unique store.
+func reachingStore(ld *ssa.UnOp) *ssa.Store {
+	if ld.Op != token.MUL {
+		return nil
+	}
+	al, ok := ld.X.(*ssa.Alloc)
+	if !ok || al.Referrers() == nil {
+		return nil
+	}
+	var writes []ssa.Instruction
+	for _, r := range *al.Referrers() {
+		switch x := r.(type) {
+		case *ssa.Store:
+			if x.Addr == ssa.Value(al) {
+				writes = append(writes, x)
+			} else {
+				return nil // the address itself is stored somewhere
+			}
+		case *ssa.UnOp, *ssa.DebugRef:
+		case ssa.CallInstruction:
+			writes = append(writes, x)
+		default:
+			return nil // captured, sliced, field-addressed ...
+		}
+	}
+	var best *ssa.Store
+	for _, w := range writes {
+		st, isStore := w.(*ssa.Store)
+		if !isStore || !instrDominates(st, ld) {
+			continue
+		}
+		if best == nil || instrDominates(best, st) {
+			best = st
+		}
+	}
+	if best == nil {
+		return nil
+	}
+	// no other write on a path from the chosen store to the load
+	succReach := func(b *ssa.BasicBlock) map[*ssa.BasicBlock]bool {
+		out := map[*ssa.BasicBlock]bool{}
+		for _, s := range b.Succs {
+			for k := range reachableFrom(s, nil) {
+				out[k] = true
+			}
+		}
+		return out
+	}
+	afterBest := succReach(best.Block())
+	for _, w := range writes {
+		if w == ssa.Instruction(best) {
+			continue
+		}
+		wb := w.Block()
+		after := wb == best.Block() && instrIndex(w) > instrIndex(best) || afterBest[wb]
+		before := wb == ld.Block() && instrIndex(w) < instrIndex(ld) || succReach(wb)[ld.Block()]
+		if after && before {
+			return nil
+		}
+	}
+	return best
+}
+
+func instrIndex(ins ssa.Instruction) int {
+	for i, x := range ins.Block().Instrs {
+		if x == ins {
+			return i
+		}
+	}
+	return -1
 }
